@@ -26,10 +26,15 @@ func (e *Exec) symDiscount(name string) *Term {
 }
 
 func (e *Exec) report(clause, finding string, negated *Term) {
-	roots := append(append([]*Term{}, e.pc...), negated)
-	r, model := e.solver.Check(roots, e.inputs)
+	r, _ := e.solver.Check(append(e.slicePC(negated), negated), nil)
 	e.st.Queries++
 	e.st.Obligations++
+	var model map[string]string
+	if r == "sat" {
+		// full query for a model of every input
+		r, model = e.solver.Check(append(append([]*Term{}, e.pc...), negated), e.inputs)
+		e.st.Queries++
+	}
 	switch r {
 	case "unsat":
 		e.st.Unsat++
